@@ -329,6 +329,10 @@ def arith_mixed(inp):
 
 def gen_square(tier, rng):
     for a in DTYPES:
+        if a == "bool":
+            # numpy itself is not consistent for bool (x**2 -> int8 via numpy.square, numpy.power(x, 2) -> int64), so no
+            # "numpy's promoted dtype" exists for it; demanding int8 would demand more than C12 states.
+            continue
         for kind in ("poly", "const"):
             for via in ("operator", "numpoly.power", "numpoly.square"):
                 for _ in range(count(tier, 1, 12)):
